@@ -132,6 +132,24 @@ _add3("C16", "Code and EnhancedCode are copied from a typed error together.")
 _add3("C18", "the bounce is a proper transaction (pipeline configured, generation errors stop it, no use after a failed Start, Commit only after AddRcpt and Body succeeded, each successful stage proceeds to the next, the deferred clean-up aborts iff a stage failed).")
 _add3("C19", "a freshly made bucket is stored only on the miss edge of a lookup of the same key.")
 _add3("C20", "expandMacros and expandEnvironment descend into the children of every node and return the errors of the descent.")
+def _add4(id, text_extra):
+    tech, text, note, ref = CLAIMED[id]
+    CLAIMED[id] = (tech, text + " Third round: " + text_extra, note, ref + ", §R.9")
+_E = "in the functions its rules depend on, the error of every step is read before it is overwritten or the function returns (E1), a failed step is used or refused and not treated as done (E2), a nil error is not handed on as the failure (E3), and the value of a failed comma-ok assertion / lookup / receive is not used (E4)"
+for _id in list(CLAIMED):
+    _add4(_id, _E + ".")
+def _add5(id, text_extra):
+    tech, text, note, ref = CLAIMED[id]
+    CLAIMED[id] = (tech, text + " " + text_extra, note, ref)
+_add5("C03", "The session's message lock is balanced on every path (L1) and the transaction state is only touched under it, including deferred and local closures and the status callback (L2); LMTPData hands the body to the delivery before Commit.")
+_add5("C06", "Check-runner locks are balanced (L1); every caller of the connection-stage checks refuses and does not go on to authenticate when a check refused (R2b).")
+_add5("C07", "FetchRecord treats a failed lookup as 'no record here' only when it is a DNS not-found (R5).")
+_add5("C10", "The first attempt sees the header, stored body and metadata that Body accepted: Body -> Commit -> slot -> dispatch -> tryDelivery -> deliver pass them on unchanged (R3f).")
+_add5("C11", "Limiter locks are balanced (L1), the bucket table is only touched under its mutex (L2); the per-IP key is the peer's address exactly for a TCP peer at the take and release sites of the endpoint and of the remote target (R3b); BucketSet enforces iff configured, refuses a full table, inserts iff missing, releases an existing bucket (R7).")
+_add5("C12", "Scheduler locks are balanced (L1); Close closes the channel a blocked Add waits on and performs the stop handshake exactly when the scheduler exists (R9).")
+_add5("C14", "AuthPlain verifies part 1 of the looked-up value under the verifier selected by part 0; create / set-password succeed only after the table accepted the hash of the supplied password; create cannot replace existing credentials (R3c).")
+_add5("C15", "The 'found' flag of the translation lookup is set on every path; the answer of a lookup that found nothing is no entitlement.")
+_add5("C19", "The pool lock is balanced (L1); a receive that reports 'closed' yields no connection (R2b); on the user side the pool's answer is asserted only when non-nil and a connection taken or opened is recorded for Close or closed on every path (R7).")
 for _id in list(CLAIMED):
     tech, text, note, ref = CLAIMED[_id]
     CLAIMED[_id] = (tech, text, note + "; rules are form-agnostic (named booleans, if/switch, loop forms, extracted helpers, renamed unexported functions and fields – DESIGN.md §R.7) and measured against a corpus of 22 behaviour-preserving refactorings (refactorings/, refacall.sh)", ref)
